@@ -451,7 +451,7 @@ Proof.
       assert (R2 : input_paths s2 = [] /\ ws' = ws).
       { destruct (reference_partial cfg).
         - apply ok_inj in E2. inversion E2; subst. split; reflexivity.
-        - destruct (lookup k (sections_subgroups seg)) as [others|].
+        - destruct (lookup k (subgroups_for seg f)) as [others|].
           + revert E2. apply (fold_out_rel (fun ws s ws' => input_paths s = [] /\ ws' = ws)).
             * intros; split; reflexivity.
             * intros w0 t1 w1 t2 w2 [F1 V1] [F2 V2]. subst. rewrite input_paths_app, F1, F2.
